@@ -1,6 +1,8 @@
 #!/usr/bin/env python3
-"""Child process: load libpacketdsl.so, call FormatPacketDslExport on the bytes of a file, print {"ret": str}.
-If the library aborts the host, this process dies and the parent observes that."""
+"""Child process: load libpacketdsl.so ONCE, call FormatPacketDslExport on the bytes of every file named on the command
+line, in order, in this one process (the library stays loaded between calls: a process-lifetime history); print one
+{"ret": str} line per call, flushed at once.  If the library aborts the host, this process dies and the parent sees
+how many calls were answered."""
 import ctypes
 import json
 import sys
@@ -8,8 +10,9 @@ import sys
 lib = ctypes.CDLL(sys.argv[1])
 lib.FormatPacketDslExport.restype = ctypes.c_void_p
 lib.FormatPacketDslExport.argtypes = [ctypes.c_char_p]
-data = open(sys.argv[2], "rb").read()
-p = lib.FormatPacketDslExport(data)
-s = ctypes.string_at(p) if p else b""
-print(json.dumps({"ret": s.decode("utf-8", "surrogateescape")}))
-sys.stdout.flush()
+for path in sys.argv[2:]:
+    data = open(path, "rb").read()
+    p = lib.FormatPacketDslExport(data)
+    s = ctypes.string_at(p) if p else b""
+    print(json.dumps({"ret": s.decode("utf-8", "surrogateescape")}))
+    sys.stdout.flush()
